@@ -421,6 +421,30 @@ func main() {
 					step(fmt.Sprintf("parts b%d h=%d r=%d", R.Intn(nblk), h, rd))
 				}
 				r.Count("act.parts")
+			case c < 52 && func() bool { rs := im.C.CS.GetRoundState(); return rs.LockedBlock != nil && rs.LockedRound > 0 }():
+				// directed: the node holds a lock taken in round lr > 0; a DELAYED polka of an EARLIER
+				// round for another block arrives (it must not release the newer lock)
+				rs := im.C.CS.GetRoundState()
+				lr := rs.LockedRound
+				locked := im.NameOfHash(rs.LockedBlock.Hash())
+				er := int64(R.Intn(int(lr)))
+				other := "-"
+				for k := 0; k < nblk; k++ {
+					if nm := fmt.Sprintf("b%d", k); nm != locked && R.Chance(60) {
+						other = nm
+					}
+				}
+				for _, v := range R.Perm(n) {
+					if v == me {
+						continue
+					}
+					if _, voted := recv[rk{er, 1}][v]; voted {
+						continue
+					}
+					peerVote(v, 1, er, other, h)
+				}
+				step("drain")
+				r.Count("act.stale-polka-while-locked")
 			case c < 82: // a group of validators votes the same way (this is what forms polkas and commits)
 				t := R.Range(1, 2)
 				vr := rd
